@@ -269,6 +269,11 @@ def compare_leaves(res, sem, cl, bl, counters, cm, bm, timeout_ms, st):
     if cm.init_mode != "zero":
         for key in sorted(set(cl.arrays) | set(bl.arrays)):
             pairs.append((cm.array(cl, key), bm.array(bl, key), "final contents of " + key))
+    for a, b, what in pairs:
+        if a.sort() != b.sort():
+            # e.g. a numeric operand that the emitted text passes as a string literal
+            res.findings.append(Finding("trace-differs", f"{what}: {'s' if a.sort() == z3.StringSort() else 'n'} vs {'s' if b.sort() == z3.StringSort() else 'n'}"))
+            return
     todo = [(a, b, what) for a, b, what in pairs if not a.eq(b)]
     st.bump("obligations")
     res.counts["obligations"] += 1
